@@ -56,7 +56,8 @@ class Pi(schemes.interface.inverted_index_sse.InvertedIndexSSE):
 
             N += random_id_list_len
 
-        L_list = [[] for _ in range(t)]  # t empty lists L0, L1, ... , Lt−1
+        # t + 1 empty lists L0, L1, ... , Lt: a keyword that owns all 2^t pairs has a chunk of size 2^t
+        L_list = [[] for _ in range(t + 1)]
 
         for keyword in padded_database:
             Kw0_concat_Kw1 = self.config.prf_f(K, keyword)
@@ -74,14 +75,14 @@ class Pi(schemes.interface.inverted_index_sse.InvertedIndexSSE):
                 c += 2 ** j
 
         # padding each list
-        for i in range(t):
+        for i in range(t + 1):
             d_len = (2 ** i) * len(self.config.ske.Encrypt(b"\x00" * self.config.param_k_prime,
                                                            b"\x00" * self.config.param_identifier_size))
             L_list[i].extend(
                 ((os.urandom(self.config.param_l), os.urandom(d_len)) for _ in range((2 ** (t - i)) - len(L_list[i]))))
-        # create HT_0, ..., HT_{t-1}
+        # create HT_0, ..., HT_t
         HT_list = []
-        for i in range(t):
+        for i in range(t + 1):
             HT_list.append(PiEncryptedDatabase.create_hash_table(L_list[i]))
 
         return PiEncryptedDatabase(HT_list, self.config)
